@@ -40,7 +40,7 @@ impl Committee {
 }
 
 /// Per correct validator: everything it ever signed (over all incarnations) and handed over.
-#[derive(Debug, Default)]
+#[derive(Default)]
 pub struct NodeMon {
     /// Commit votes signed, by view.
     pub commit_votes: BTreeMap<u64, v2::ReplicaCommit>,
@@ -55,6 +55,8 @@ pub struct NodeMon {
     pub timeout_votes: BTreeMap<u64, Vec<v2::ReplicaTimeout>>,
     /// Last snapshot of the live incarnation: (incarnation, view, hc view, ht view).
     pub last_snap: Option<(u64, u64, Option<u64>, Option<u64>)>,
+    /// Reference replica of the live incarnation (C05 oracle 4).
+    pub model: Option<(u64, super::refmodel::RefReplica)>,
 }
 
 pub struct HubInner {
@@ -629,6 +631,31 @@ impl Hub {
                 "adopted_forged_timeout_certificate",
                 format!("n{node} {wher} a timeout certificate (view {}) which is not backed by the signing history: {e}", qc.view.number.0),
             ),
+        }
+    }
+
+    /// C05 oracle 4: the reference replica makes the step the real one has just made.
+    pub fn on_model_step(&self, node: usize, inc: u64, s: &zksync_consensus_bft::verif::Snapshot, sent: &[super::refmodel::Sent], max_payload: usize) {
+        use zksync_consensus_bft::verif::Event;
+        if !self.is_correct(node) {
+            return;
+        }
+        let mut i = self.inner.lock().unwrap();
+        if s.event == Event::Start || i.mons[node].model.as_ref().is_none_or(|(mi, _)| *mi != inc) {
+            // A new incarnation starts from what it loaded (restart equality is C03 / oracle 1).
+            // Joining an incarnation mid-way (no Start seen) leaves the caches unknown.
+            let mut m = super::refmodel::RefReplica::start(&self.committee, max_payload, s);
+            m.caches_known = s.event == Event::Start;
+            i.mons[node].model = Some((inc, m));
+            return;
+        }
+        let diffs = i.mons[node].model.as_mut().unwrap().1.step(s, sent);
+        drop(i);
+        if !diffs.is_empty() {
+            self.probe("reference_replica_deviation");
+            self.violation("C05", "deviates_from_reference_replica", format!("n{node}.{inc}: {}", diffs.join(" | ")));
+        } else {
+            self.probe("reference_replica_steps");
         }
     }
 
